@@ -366,7 +366,11 @@ func castRecordBatch(batch arrow.RecordBatch, targetSchema *arrow.Schema) (out a
 				Message: fmt.Sprintf("Input schema mismatch: field %q holds malformed data: %v", targetSchema.Field(int(i)).Name, verr),
 			}
 		}
-		datum, err := compute.CastDatum(ctx, compute.NewDatum(srcCol), compute.SafeCastOptions(targetType))
+		// NewDatum takes its own reference on the column's data: give it back once
+		// the cast has run, or the source buffers are never freed.
+		srcDatum := compute.NewDatum(srcCol)
+		datum, err := compute.CastDatum(ctx, srcDatum, compute.SafeCastOptions(targetType))
+		srcDatum.Release()
 		if err != nil {
 			// Release already-cast columns
 			for j := range i {
